@@ -376,10 +376,15 @@ func check(id, tier string) int {
 		}
 	}
 	if p.Race {
-		rv, nreports, nraw := scanRaceLogs(runDir)
+		rv, nreports, nraw, hr := scanRaceLogs(runDir)
 		counters["race_reports_raw"] = int64(nraw)
 		counters["race_reports_deduped"] = int64(nreports)
+		counters["harness_race_reports"] = int64(len(hr))
 		viols = append(viols, rv...)
+		for _, h := range hr {
+			fmt.Printf("HARNESS-ERROR property=%s data race between harness accesses:\n%s\n", id, h)
+			harnessBroken = true
+		}
 	}
 
 	// known findings
@@ -571,13 +576,16 @@ func firstGoroutine(s string) string {
 
 var lineNo = regexp.MustCompile(`:\d+ \+0x[0-9a-f]+|:\d+`)
 
-// scanRaceLogs counts WARNING: DATA RACE blocks, keeps those with a kafka-go
-// frame, and dedupes by the pair of stacks with line numbers stripped.
-func scanRaceLogs(runDir string) ([]core.Violation, int, int) {
+// scanRaceLogs counts WARNING: DATA RACE blocks and classifies each by the
+// innermost non-runtime frame of its two accesses: a report is attributed to
+// the library when kafka-go code takes part in it (a kafka-go frame in either
+// access stack) unless both accesses are made by harness code itself (a
+// harness callback or the fake network racing with itself), which is a
+// harness defect and is returned separately. Library reports are deduped by
+// the pair of innermost kafka-go functions.
+func scanRaceLogs(runDir string) (viols []core.Violation, nreports, raw int, harness []string) {
 	files, _ := filepath.Glob(filepath.Join(runDir, "race*"))
 	seen := map[string]bool{}
-	var out []core.Violation
-	raw := 0
 	for _, f := range files {
 		b, err := os.ReadFile(f)
 		if err != nil {
@@ -590,14 +598,33 @@ func scanRaceLogs(runDir string) ([]core.Violation, int, int) {
 				continue
 			}
 			raw++
-			if !strings.Contains(s, "github.com/segmentio/kafka-go") {
+			accs := raceAccesses(s)
+			lib, allHarness := false, len(accs) > 0
+			var tops []string
+			for _, a := range accs {
+				if a.libTop != "" {
+					lib = true
+				}
+				if !strings.HasPrefix(a.innermost, "verifharness/") {
+					allHarness = false
+				}
+				t := a.libTop
+				if t == "" {
+					t = "[" + a.innermost + "]"
+				}
+				tops = append(tops, t)
+			}
+			if allHarness || !lib {
+				if len(s) > 3000 {
+					s = s[:3000]
+				}
+				if len(harness) < 5 {
+					harness = append(harness, s)
+				}
 				continue
 			}
-			fa, fb := raceTopFrames(s)
-			key := "race:" + fa + "|" + fb
-			if fb < fa {
-				key = "race:" + fb + "|" + fa
-			}
+			sort.Strings(tops)
+			key := "race:" + strings.Join(tops, "|")
 			if seen[key] {
 				continue
 			}
@@ -605,16 +632,21 @@ func scanRaceLogs(runDir string) ([]core.Violation, int, int) {
 			if len(s) > 6000 {
 				s = s[:6000]
 			}
-			out = append(out, core.Violation{Key: key, What: "data race reported by the Go race detector", Witness: map[string]any{"report": s}})
+			viols = append(viols, core.Violation{Key: key, What: "data race reported by the Go race detector", Witness: map[string]any{"report": s}})
 		}
 	}
-	return out, len(out), raw
+	return viols, len(viols), raw, harness
 }
 
-// raceTopFrames returns the innermost kafka-go function of each of the two
-// accesses of a race report.
-func raceTopFrames(rep string) (string, string) {
-	var tops []string
+type raceAccess struct {
+	innermost string // innermost frame outside the Go runtime and standard library
+	libTop    string // innermost kafka-go function, "" when none
+}
+
+// raceAccesses parses the access sections (not the goroutine creation
+// stacks) of a race report.
+func raceAccesses(rep string) []raceAccess {
+	var out []raceAccess
 	sections := regexp.MustCompile(`(?m)^(Read at|Write at|Previous read at|Previous write at|Atomic|Previous atomic)`).FindAllStringIndex(rep, -1)
 	for i, loc := range sections {
 		end := len(rep)
@@ -625,23 +657,29 @@ func raceTopFrames(rep string) (string, string) {
 		if j := strings.Index(sec, "\n\n"); j >= 0 {
 			sec = sec[:j]
 		}
-		top := "?"
-		for _, l := range strings.Split(sec, "\n") {
+		var a raceAccess
+		for _, l := range strings.Split(sec, "\n")[1:] {
+			if !strings.HasPrefix(l, "  ") || strings.HasPrefix(l, "      ") {
+				continue // file:line lines are indented deeper
+			}
 			l = strings.TrimSpace(l)
-			if strings.HasPrefix(l, "github.com/segmentio/kafka-go") {
-				if k := strings.LastIndex(l, "("); k > 0 {
-					l = l[:k]
-				}
-				top = strings.TrimPrefix(l, "github.com/segmentio/kafka-go")
-				break
+			if k := strings.LastIndex(l, "("); k > 0 {
+				l = l[:k]
+			}
+			userFrame := strings.Contains(strings.SplitN(l, "/", 2)[0], ".") || strings.HasPrefix(l, "verifharness/")
+			if !userFrame {
+				continue
+			}
+			if a.innermost == "" {
+				a.innermost = l
+			}
+			if a.libTop == "" && strings.HasPrefix(l, "github.com/segmentio/kafka-go") {
+				a.libTop = strings.TrimPrefix(l, "github.com/segmentio/kafka-go")
 			}
 		}
-		tops = append(tops, top)
+		out = append(out, a)
 	}
-	for len(tops) < 2 {
-		tops = append(tops, "?")
-	}
-	return tops[0], tops[1]
+	return out
 }
 
 func replay(path string) int {
